@@ -2,6 +2,7 @@ package main
 
 import (
 	"fmt"
+	"go/types"
 	"strings"
 
 	"golang.org/x/tools/go/ssa"
@@ -243,6 +244,17 @@ func init() {
 		}
 	}
 
+	// a symbolic CometBFT proto public key: a supported key (an arbitrary key value) or an unsupported one
+	modelTypes["github.com/cometbft/cometbft/proto/tendermint/crypto.PublicKey"] = mt{
+		zero: nil,
+		sym: func(e *Exec, name string, t types.Type) Value {
+			pk := e.zero(t).(*StructV)
+			if e.decideBool(e.fresh(name+".supported", BoolSort)) {
+				pk.F[0] = IfaceV{V: &ModelObj{Kind: "tmpk", F: map[string]Value{"term": e.fresh(name+".pubkey", pkSort)}}}
+			}
+			return pk
+		},
+	}
 	// comet public key from its proto form; validator String() in error messages
 	models["github.com/cometbft/cometbft/crypto/encoding.PubKeyFromProto"] = func(e *Exec, a []Value) []Value {
 		sv, ok := a[0].(*StructV)
